@@ -68,8 +68,8 @@ func (x *Exec) yield() {
 func (x *Exec) switchTo(next *G) {
 	me := x.cur
 	x.cur = next
+	ep := x.epoch // before handing over: the goroutine woken next may end the path (and bump the epoch) at once
 	next.wake <- struct{}{}
-	ep := x.epoch
 	<-me.wake
 	if x.epoch != ep {
 		runtime.Goexit()
